@@ -1151,6 +1151,7 @@ class _InstallSummary:
         self.ci = pkg.cls("Network")
         self._sites = {}
         self._parse = {}
+        self._selfname = {}
 
     def _modhelper(self, name):
         """a private function of network.py whose first parameter can take the network (and that is not also a method's name)"""
@@ -1159,6 +1160,13 @@ class _InstallSummary:
 
     def _fn(self, name):
         return self.ci.methods.get(name) or self._modhelper(name)
+
+    def _me(self, name, fn):
+        """the name under which the function holds the network: the first parameter of a method, the parameter a module-level
+        piece receives it in"""
+        if name in self.ci.methods:
+            return fn.args.args[0].arg if fn.args.args else "self"
+        return self._selfname.get(name, "self")
 
     def sites(self, mname, depth=0):
         from ..valueflow import Flow, simp
@@ -1169,13 +1177,18 @@ class _InstallSummary:
         self._sites[mname] = out            # recursion guard
         if fn is None or depth > 3:
             return out
-        SELF = ("param", fn.args.args[0].arg) if fn.args.args else ("param", "self")
+        SELF = ("param", self._me(mname, fn))
         fl = Flow(fn, NF)
         for f in fl.facts:
             if f.kind == "call" and f.value is not None and f.value[0] == "call" and simp(f.value[1])[0] == "global" and self._modhelper(simp(f.value[1])[1]) \
-                    and simp(f.value[1])[1] != mname and f.value[2] and simp(f.value[2][0]) == SELF:
-                # a piece of the method moved into a private FUNCTION of the module that is handed the network
-                for x in self.sites(simp(f.value[1])[1], depth + 1):
+                    and simp(f.value[1])[1] != mname and SELF in [simp(a) for a in f.value[2]]:
+                # a piece of the method moved into a private FUNCTION of the module that is handed the network (in whatever position)
+                h = simp(f.value[1])[1]
+                hp = [a.arg for a in self._modhelper(h).args.args]
+                k = [simp(a) for a in f.value[2]].index(SELF)
+                if k >= len(hp) or self._selfname.setdefault(h, hp[k]) != hp[k]:
+                    continue
+                for x in self.sites(h, depth + 1):
                     out.append({"what": x["what"], "guards": tuple(f.guards) + tuple(x["guards"]), "line": f.line, "loops": bool(f.loops) or x["loops"]})
                 continue
             if f.kind != "call" or f.value is None or f.value[0] != "meth":
@@ -1196,15 +1209,17 @@ class _InstallSummary:
         self._parse[mname] = out
         if fn is None or depth > 3:
             return out
-        me = fn.args.args[0].arg if fn.args.args else "self"
+        me = self._me(mname, fn)
         for n in ast.walk(fn):
             if not isinstance(n, ast.Call):
                 continue
             t = ast.unparse(n.func)
             if t == "Species" or "_reaction_factory" in t.split(".")[-1]:
                 out.append(n.lineno)
-            elif isinstance(n.func, ast.Name) and self._modhelper(t) is not None and t != mname and n.args and isinstance(n.args[0], ast.Name) and n.args[0].id == me:
-                if self.parse_lines(t, depth + 1):
+            elif isinstance(n.func, ast.Name) and self._modhelper(t) is not None and t != mname and any(isinstance(a, ast.Name) and a.id == me for a in n.args):
+                hp = [a.arg for a in self._modhelper(t).args.args]
+                k = [isinstance(a, ast.Name) and a.id == me for a in n.args].index(True)
+                if k < len(hp) and self._selfname.setdefault(t, hp[k]) == hp[k] and self.parse_lines(t, depth + 1):
                     out.append(n.lineno)
             elif isinstance(n.func, ast.Attribute) and isinstance(n.func.value, ast.Name) and n.func.value.id == me and n.func.attr in self.ci.methods and n.func.attr != mname:
                 callee = n.func.attr
